@@ -19,7 +19,7 @@ M = [
  ("aln_writer overhang from last_written", "src/ska_ref/aln_writer.rs", "(self.last_mapped + self.half_split_len).saturating_sub(self.last_written)", "(self.last_written + self.half_split_len).saturating_sub(self.last_written)", ["C04"]),
  ("map strand correction dropped", "src/ska_ref.rs", "true => RC_IUPAC[*x as usize],", "true => *x,", ["C04", "C15"]),
  ("vcf position zero based", "src/ska_ref.rs", "Position::from(map_pos + 1)", "Position::from(map_pos.max(1))", ["C05"]),
- ("idx_check contig switch off by one", "src/ska_ref/idx_check.rs", "if self.idx >= self.end_coor[self.current_chr] {", "if self.idx > self.end_coor[self.current_chr] {", ["C05"]),
+ ("idx_check contig switch off by one", "src/ska_ref/idx_check.rs", "&& self.idx >= self.end_coor[self.current_chr]", "&& self.idx > self.end_coor[self.current_chr]", ["C05"]),
  ("vcf alt allele numbering", "src/ska_ref.rs", "(alt_bases.iter().position(|&r| r == alt_base).unwrap() + 1).to_string()", "alt_bases.len().to_string()", ["C05"]),
  ("filter count strictly greater", "src/merge_ska_array.rs", "if *count >= min_count {", "if *count > min_count || min_count == 0 {", ["C06", "C10"]),
  ("filter keeps kmers unconditionally", "src/merge_ska_array.rs", "                    if update_kmers {\n                        filtered_kmers.push(*kmer);\n                    }", "                    filtered_kmers.push(*kmer);", []),
